@@ -46,6 +46,12 @@ class ThreadRunner(BaseRunner):
 
     def _set_failure(self, failure: BaseException):
         if not self._payload_failure.done():
+            if isinstance(failure, StopIteration):
+                # a Future refuses StopIteration, which would silently drop the failure;
+                # wrap it the way PEP 479 does for generators and coroutines
+                wrapper = RuntimeError("payload raised StopIteration")
+                wrapper.__cause__ = failure
+                failure = wrapper
             self._payload_failure.set_exception(failure)
 
     async def manage_payloads(self):
